@@ -4,7 +4,8 @@
 (* what a stream of frames obliges a receiving endpoint to deliver and to answer.                              *)
 (*                                                                                                             *)
 (* A frame fact record:                                                                                        *)
-(*   op   opcode (0 continuation, 1 text, 2 binary, 8 close, 9 ping, 10 pong, others reserved; -1 = opaque junk bytes)  *)
+(*   op   opcode (0 continuation, 1 text, 2 binary, 8 close, 9 ping, 10 pong, others reserved; -1 = opaque junk bytes, *)
+(*        -2 = a flood of non-final continuation frames, len bytes in all)                                     *)
 (*   fin, rsv (0 or not), enc (7/16/64: which length encoding is on the wire), masked is a property of the run *)
 (*   lc   length class (string), len = its concrete value (payload bytes present on the wire; -1: a giant      *)
 (*        declared length whose payload is of course absent)                                                   *)
@@ -32,12 +33,13 @@ LenOf(lc, max) ==
 
 (* ---- UTF-8 at the level of payload classes -------------------------------------------------------------- *)
 (* H1/H2: the payload ENDS with the first 1/2 bytes of a 3-byte character; T2/T1: it STARTS with the last 2/1  *)
-(* bytes of one; the bad_* classes contain a sequence that is invalid wherever it stands.                     *)
-BadClasses == {"bad_ff", "bad_cont", "bad_overlong", "bad_surr", "bad_big", "bin"}
+(* bytes of one (T1 on its own is the lone continuation byte); the bad_* classes contain a sequence that is    *)
+(* invalid wherever it stands (0xFF, an overlong form, a surrogate, a code point beyond U+10FFFF).            *)
+BadClasses == {"bad_ff", "bad_overlong", "bad_surr", "bad_big", "bin"}
 TextOk == {"ascii", "u2", "u3", "u4"}
 AllTextClasses == TextOk \cup {"H1", "H2", "T2", "T1"} \cup (BadClasses \ {"bin"})
 MinLen(pc) == CASE pc \in {"u2", "H2", "T2", "bad_overlong"} -> 2 [] pc \in {"u3", "bad_surr"} -> 3 [] pc \in {"u4", "bad_big"} -> 4
-                [] pc \in {"H1", "T1", "bad_ff", "bad_cont"} -> 1 [] OTHER -> 0
+                [] pc \in {"H1", "T1", "bad_ff"} -> 1 [] OTHER -> 0
 Owes(pc) == IF pc = "H1" THEN 2 ELSE IF pc = "H2" THEN 1 ELSE 0
 Pays(pc) == IF pc = "T2" THEN 2 ELSE IF pc = "T1" THEN 1 ELSE 0
 
